@@ -838,6 +838,12 @@ impl<W: InnerWriterTrait> ArchiveWriter<'_, W> {
         // Upper layer must be a PositionLayer
         let mut final_dest = Box::new(PositionLayerWriter::new(dest));
         final_dest.reset_position();
+        #[cfg(mla_verif)]
+        #[allow(clippy::cast_possible_wrap)]
+        crate::verif::emit(
+            "w_new",
+            &[("w", std::ptr::from_ref(&*final_dest) as usize as i64)],
+        );
 
         // Build initial archive
         Ok(ArchiveWriter {
@@ -861,6 +867,8 @@ impl<W: InnerWriterTrait> ArchiveWriter<'_, W> {
     }
 
     pub fn finalize(&mut self) -> Result<(), Error> {
+        #[cfg(mla_verif)]
+        self.verif_call("w_finalize", &[]);
         // Check final state (empty ids, empty hashes)
         check_state!(self.state, OpenedFiles);
         match &mut self.state {
@@ -938,6 +946,15 @@ impl<W: InnerWriterTrait> ArchiveWriter<'_, W> {
     }
 
     pub fn start_file(&mut self, filename: &str) -> Result<ArchiveFileID, Error> {
+        #[cfg(mla_verif)]
+        #[allow(clippy::cast_possible_wrap)]
+        self.verif_call(
+            "w_start",
+            &[
+                ("nlen", filename.len() as i64),
+                ("nhash", crate::verif::name_hash(filename)),
+            ],
+        );
         check_state!(self.state, OpenedFiles);
 
         if self.files_info.contains_key(filename) {
@@ -992,6 +1009,9 @@ impl<W: InnerWriterTrait> ArchiveWriter<'_, W> {
         size: u64,
         src: U,
     ) -> Result<(), Error> {
+        #[cfg(mla_verif)]
+        #[allow(clippy::cast_possible_wrap)]
+        self.verif_call("w_append", &[("id", id as i64), ("size", size as i64)]);
         check_state_file_opened!(&self.state, &id);
 
         if size == 0 {
@@ -1012,6 +1032,9 @@ impl<W: InnerWriterTrait> ArchiveWriter<'_, W> {
     }
 
     pub fn end_file(&mut self, id: ArchiveFileID) -> Result<(), Error> {
+        #[cfg(mla_verif)]
+        #[allow(clippy::cast_possible_wrap)]
+        self.verif_call("w_end", &[("id", id as i64)]);
         check_state_file_opened!(&self.state, &id);
 
         let hash = match &mut self.state {
@@ -1046,10 +1069,14 @@ impl<W: InnerWriterTrait> ArchiveWriter<'_, W> {
 
     /// Unwraps the inner writer
     pub fn into_raw(self) -> W {
+        #[cfg(mla_verif)]
+        self.verif_call("w_into_raw", &[]);
         self.dest.into_raw()
     }
 
     pub fn flush(&mut self) -> io::Result<()> {
+        #[cfg(mla_verif)]
+        self.verif_call("w_flush", &[]);
         self.dest.flush()
     }
 }
@@ -1645,6 +1672,27 @@ impl<W: InnerWriterTrait> ArchiveWriter<'_, W> {
         st.infos.sort();
         self.dest.verif_state(&mut st.layers);
         st
+    }
+
+    /// Trace event at the entry of a public call: the call, its arguments and the scalar state
+    /// left by the previous call
+    #[allow(clippy::cast_possible_wrap)]
+    fn verif_call(&self, call: &'static str, args: &[(&'static str, i64)]) {
+        let (finalized, nopen) = match &self.state {
+            ArchiveWriterState::OpenedFiles { ids, .. } => (0, ids.len()),
+            ArchiveWriterState::Finalized => (1, 0),
+        };
+        let mut fields = vec![
+            ("w", std::ptr::from_ref(&*self.dest) as usize as i64),
+            ("pos", self.dest.position() as i64),
+            ("next_id", self.next_id as i64),
+            ("cur_id", self.current_id as i64),
+            ("nopen", nopen as i64),
+            ("nfiles", self.files_info.len() as i64),
+            ("fin", finalized),
+        ];
+        fields.extend_from_slice(args);
+        crate::verif::emit(call, &fields);
     }
 }
 
